@@ -451,6 +451,13 @@ def awaitables_fresh(R, RID):
             continue
         for (conds, val, site) in value_cases(R, g, y, y.ast.value):
             if not isinstance(val, ast.Call):
+                # an awaitable that is not constructed in parse() at all: a module constant, a field set up in __init__
+                n_ += 1
+                R.ob(RID, 'awaitable for `%s` is created for this read' % y.text()[:40], False,
+                     'the awaitable yielded here (%s) is a long-lived object, not one constructed for this read: after a '
+                     'read that was split across two recv() calls its outstanding byte count stays reduced (also across '
+                     'connections) and the next frame is mis-parsed' % U(val), func=q, node=y.ast,
+                     construct='shared awaitable %s' % U(val))
                 continue
             n_ += 1
             yl = [fr.stmt for fr in y.frames if fr.kind == 'loop']
